@@ -669,6 +669,11 @@ func runRace(rep *lib.Report, joinCode int) {
 			rep.Fail(f6Key, what, f6Replay(f6First), false)
 		}
 	}
+	if joinCode == 2 {
+		// the model's verdict (Argot.ReportWriter.late_join_race): joined, but only after STEP 3 wrote the map
+		rep.Fail("report-writer-joined-after-link", "T9: BuildGraph waits for its writer goroutine only after STEP 3; the map insertions of STEP 3 overlap the writer's iteration (model: late_join_race)",
+			f6Replay(fmt.Sprintf("race reports involving the writer in this run: %d", f6Races)), f6Races == 0)
+	}
 	var oks []string
 	for k := range otherKeys {
 		oks = append(oks, k)
